@@ -26,8 +26,8 @@ import (
 	"fmt"
 	"io"
 	"io/ioutil"
-	"math/rand"
 	stdlog "log"
+	"math/rand"
 	"os"
 	"os/exec"
 	"path/filepath"
@@ -248,6 +248,78 @@ func tail(s string, n int) string {
 		return s[len(s)-n:]
 	}
 	return s
+}
+
+// ---------------------------------------------------------------------------
+// Part III: free-running -race pass for what the serialising scheduler cannot see
+
+// racePass builds mc/c14race with the race detector (same overlay / same tree) and runs it. A
+// data race on a Go map, or the runtime's own "concurrent map" abort, is a crash the relay can
+// suffer from plain concurrent traffic: reported as a violation. Other reported races are only
+// counted (they are not crashes). If the race-enabled build is not possible here, the pass is
+// reported as skipped.
+func racePass() (info map[string]interface{}) {
+	info = map[string]interface{}{}
+	bin := filepath.Join(os.Getenv("VERIF_WORK"), "c14race")
+	args := []string{"build", "-race"}
+	if mf := os.Getenv("VERIF_MODFLAG"); mf != "" {
+		args = append(args, mf)
+	}
+	if ov := os.Getenv("VERIF_OVERLAY"); ov != "" {
+		// the overlay of this check carries instrumented sources: the race pass needs the plain tree
+		// plus accessor files only, which is what an overlay without "Replace" of repo files gives.
+		// Accessors are not needed by c14race, so no overlay is used at all.
+		_ = ov
+	}
+	args = append(args, "-o", bin, "./c14race")
+	cmd := exec.Command("go", args...)
+	cmd.Dir = filepath.Join(kit.Root, "mc")
+	cmd.Env = append(os.Environ(), "CGO_ENABLED=1", "GOFLAGS=-mod=mod", "GOPROXY=off", "GOSUMDB=off", "GOTOOLCHAIN=local")
+	if out, err := cmd.CombinedOutput(); err != nil {
+		info["race_pass"] = "skipped: race-enabled build failed: " + tail(string(out), 300)
+		return
+	}
+	run := exec.Command(bin)
+	run.Env = append(os.Environ(), "GORACE=halt_on_error=0 exitcode=0")
+	out, err := run.CombinedOutput()
+	text := string(out)
+	reports := strings.Split(text, "WARNING: DATA RACE")
+	nRace, nMap := 0, 0
+	for _, r := range reports[1:] {
+		nRace++
+		if end := strings.Index(r, "=================="); end >= 0 {
+			r = r[:end]
+		}
+		if strings.Contains(r, "runtime.map") {
+			nMap++
+			rep.Violation("race-pass map data race at "+panicSite(raceFrames(r)),
+				"concurrent dispatchers access a Go map without synchronisation (the runtime aborts the process on concurrent map access): "+panicSite(raceFrames(r)),
+				map[string]interface{}{"part": "race-pass", "report": tail(r, 3000)})
+		}
+	}
+	if strings.Contains(text, "fatal error:") || (err != nil && !strings.Contains(text, "C14RACE-DONE")) {
+		i := strings.Index(text, "fatal error:")
+		msg := "the process died"
+		if i >= 0 {
+			msg = strings.SplitN(text[i:], "\n", 2)[0]
+		}
+		rep.Violation("race-pass crash "+msg, "the relay's dispatch path crashed under concurrent valid traffic: "+msg,
+			map[string]interface{}{"part": "race-pass", "output_tail": tail(text, 3000)})
+	}
+	info["race_pass"] = fmt.Sprintf("8 concurrent dispatchers x 4000 lines + admin thread under the Go race detector: %d race reports, %d on maps", nRace, nMap)
+	return
+}
+
+// raceFrames turns the indented frames of a race report into the shape panicSite expects.
+func raceFrames(r string) string {
+	var sb strings.Builder
+	for _, l := range strings.Split(r, "\n") {
+		l = strings.TrimSpace(l)
+		if strings.HasPrefix(l, "github.com/grafana/carbon-relay-ng/") {
+			sb.WriteString(l + "\n")
+		}
+	}
+	return sb.String()
 }
 
 // ---------------------------------------------------------------------------
@@ -519,6 +591,7 @@ func main() {
 	pickleInputs(contLen)
 	plainInputs()
 	amqpInputs()
+	raceInfo := racePass()
 	os.RemoveAll(tmpDir)
 	execs, _ := cov["executions"].(int64)
 	c, _ := cov["counters"].(map[string]int64)
@@ -526,6 +599,7 @@ func main() {
 		"inputs: pickle payloads = accepted protocol prefix + every continuation up to the stated length; text streams up to 3 tokens; third-party decoders are covered only as far as these bytes reach them",
 		"commands: generated from the grammar of imperatives.Apply / the TOML sections with boundary values {0, 1, 2^31, 2^63-1}; kafkaMdm, pubSub and cloudWatch routes are excluded (their constructors need external services and exit the process when those are unreachable)",
 		"a panic in any goroutine of the instrumented relay packages is caught by the scheduler runtime; process exit through log.Fatal is intercepted",
+		"complement (not exhaustive, per the guidance for this technique): one free-running run of the dispatch path under the Go race detector; only races on Go maps (on which the runtime aborts the process) and crashes are judged",
 	}
 	rep.Finish(map[string]interface{}{
 		"evaluations":              ist.cases + execs,
@@ -539,5 +613,6 @@ func main() {
 		"configurations_accepted":  c["configurations_accepted"],
 		"configurations_rejected":  c["configurations_rejected_with_error"],
 		"scheduler_points_visited": cov["states"],
+		"race_pass":                raceInfo["race_pass"],
 	})
 }
